@@ -68,19 +68,19 @@ Proof.
 Qed.
 
 (* the bounds of the statement, as numbers *)
-Lemma bound_target_dimension : forall n, (bound n TIndex (BInt 1) == 1 /\ bound n TIndex BN == inject_Z n)%Q.
+Lemma bound_target_dimension : forall n, (bound n TIndex (BInt 1) == 1 /\ bound n TIndex BN == inject_Z (e_n n))%Q.
 Proof. intros; split; reflexivity. Qed.
 
-Lemma bound_num_neighbors : forall n, (bound n TIndex (BInt 3) == 3 /\ bound n TIndex BN == inject_Z n)%Q.
+Lemma bound_num_neighbors : forall n, (bound n TIndex (BInt 3) == 3 /\ bound n TIndex BN == inject_Z (e_n n))%Q.
 Proof. intros; split; reflexivity. Qed.
 
 Lemma bound_landmark_ratio : forall n,
-  (bound n TScalar (BDiv (BReal 3) BN) == 3 / inject_Z n /\ bound n TScalar (BReal 1) == 1)%Q.
+  (bound n TScalar (BDiv (BReal 3) BN) == 3 / inject_Z (e_n n) /\ bound n TScalar (BReal 1) == 1)%Q.
 Proof. intros; split; reflexivity. Qed.
 
 Lemma bound_perplexity : forall n,
   (bound n TScalar (BReal 0) == 0 /\
-   bound n TScalar (BDiv (BSub BN (BInt 1)) (BReal 3)) == (inject_Z n - 1) / 3)%Q.
+   bound n TScalar (BDiv (BSub BN (BInt 1)) (BReal 3)) == (inject_Z (e_n n) - 1) / 3)%Q.
 Proof.
   intros; split; try reflexivity.
   unfold bound; cbn. unfold Z.sub. rewrite inject_Z_plus. reflexivity.
